@@ -312,6 +312,15 @@ func (vc *VC) declMem(name, key string, leaf Sort, twoLevel bool) string {
 		vc.emit(fmt.Sprintf("(assert (forall ((o Int) (i Int)) (! (and (< 0 (select (select %s o) i))%s) :pattern ((select (select %s o) i)))))", name, hi, name))
 		return name
 	}
+	if strings.HasSuffix(key, "#o") && !twoLevel {
+		// the cells of ONE object (modifies key at obj): same facts, one level
+		hi := ""
+		if vc.pendingBound != "" {
+			hi = fmt.Sprintf(" (< (select %s i) %s)", name, vc.pendingBound)
+		}
+		vc.emit(fmt.Sprintf("(assert (forall ((i Int)) (! (and (<= 0 (select %s i))%s) :pattern ((select %s i)))))", name, hi, name))
+		return name
+	}
 	if strings.HasSuffix(key, "#o") && twoLevel {
 		// object components of stored slices / strings / pointers: object ids are non-negative, and
 		// every object reachable from the entry memory predates this function's allocations
